@@ -131,7 +131,7 @@ def run(ctx):
         return d
     # ---------------- B. errors under policies with / without 'fail' (the property's statement)
     ejobs = []
-    for kind in ("pyexc", "argtype", "nested", "skipafter"):
+    for kind in ("pyexc", "argtype", "nested", "skipafter", "whenfail"):
         for pol in c05.subsets():
             if "quiet" in pol or "raise" in pol:
                 continue
